@@ -168,18 +168,28 @@ def r1_tables(ctx):
                 continue
             sw = core.resolve_switch(F, f, bi)
             if sw.kind == 'cmp':
-                a, b2 = strip(sw.subject[2]), strip(sw.subject[3])
-                if b2[0] == 'const' and a[0] == 'other' and 'PtrMetadata' in str(a[1]):
-                    found.append((sw.subject[1], b2[1], bi))
-                elif b2[0] == 'const' and a[0] == 'call' and a[1].endswith('::len'):
-                    found.append((sw.subject[1], b2[1], bi))
+                # the test as written and its equivalent presentations (`!(len >= 8)` is `len < 8`, `8 > len` ...)
+                from .. import boundaries as _bd
+                errs = _bd.action_sites(F, f, 'err')
+                for pres in core.presentations(sw):
+                    a, b2 = strip(pres.subject[2]), strip(pres.subject[3])
+                    is_len = (a[0] == 'other' and 'PtrMetadata' in str(a[1])) or (a[0] == 'call' and a[1].endswith('::len'))
+                    if b2[0] == 'const' and is_len:
+                        # the edge on which this presentation of the test holds must end in an error on every path
+                        yes = [s2 for s2, l in pres.labels.items() if l is True]
+                        if yes and all(not any(x in f.reachable([s2], cut_blocks=errs) and x not in errs for x in f.returns()) for s2 in yes):
+                            found.append((pres.subject[1], b2[1], bi))
             elif sw.kind == 'int':
                 # `match bytes.len() { 8 => .., _ => Err }` is the test `len != 8`
                 a = strip(sw.subject)
                 if (a[0] == 'other' and 'PtrMetadata' in str(a[1])) or (a[0] == 'call' and a[1].endswith('::len')):
-                    for v in set(sw.labels.values()):
-                        if isinstance(v, int):
-                            found.append(('Ne', v, bi))
+                    from .. import boundaries as _bd
+                    errs = _bd.action_sites(F, f, 'err')
+                    other = [s2 for s2, l in sw.labels.items() if l == 'else']
+                    if other and all(not any(x in f.reachable([s2], cut_blocks=errs) and x not in errs for x in f.returns()) for s2 in other):
+                        for v in set(sw.labels.values()):
+                            if isinstance(v, int):
+                                found.append(('Ne', v, bi))
         ok = any(o == op and c == const for o, c, bi in found)
         # and the failing edge returns an Err
         r.check(ok, 'len|load|' + what, f.file, '%s::load length test: %s (RFC: %s %d)' % (what, [(o, c) for o, c, _ in found], 'len <' if op == 'Lt' else 'len !=', const))
